@@ -16,7 +16,8 @@ CONSTANTS Names,       \* instance / wire names
           MaxObjs,     \* objects including the top level (object 1)
           MaxWires,
           MaxPorts,    \* ports per object (in + out)
-          MaxCalls
+          MaxCalls,
+          HasClk       \* TRUE: the top level starts with the wire "clk" that every HWSystem creates for its clock driver
 
 VARIABLES objs,   \* Seq([parent, name, prim, ins, outs, kids])   kids = registered children (dict order)
           wires,  \* Seq([parent, name, source, sinks])            every Wire object ever registered
@@ -43,8 +44,8 @@ Registered(w) == w \in SeqRange(reg[wires[w].parent])
 
 BInit ==
     /\ objs = <<[parent |-> 0, name |-> "top", prim |-> FALSE, ins |-> <<>>, outs |-> <<>>, ios |-> <<>>, kids |-> <<>>]>>
-    /\ wires = <<>>
-    /\ reg = <<<<>>>>
+    /\ wires = IF HasClk THEN <<[parent |-> 1, name |-> "clk", source |-> 0, sinks |-> <<>>]>> ELSE <<>>
+    /\ reg = IF HasClk THEN <<<<1>>>> ELSE <<<<>>>>
     /\ err = ""
     /\ calls = 0
 
